@@ -12,6 +12,7 @@ import (
 	"regexp"
 	"strconv"
 	"strings"
+	"unicode"
 
 	"golang.org/x/tools/go/ssa"
 )
@@ -1798,7 +1799,11 @@ func lexerMustConsume(c *Ctx, rc *ssa.Function) map[*ssa.Function]bool {
 }
 
 // dnfAtZero evaluates a predicate summary (atoms over $0) at $0 == 0: 1 true, 0 false, -1 unknown.
-func dnfAtZero(cs []conj) int {
+func dnfAtZero(cs []conj) int { return dnfAtRune(cs, 0) }
+
+// dnfAtRune evaluates a predicate summary (atoms over the rune $0) at a given rune.
+func dnfAtRune(cs []conj, at rune) int {
+	z := int64(at)
 	lit := func(l string) int {
 		a := l[1:]
 		v := -1
@@ -1809,26 +1814,34 @@ func dnfAtZero(cs []conj) int {
 		switch {
 		case strings.HasPrefix(a, "($0 == ") && strings.HasSuffix(a, ")"):
 			if k, ok := num(a[7 : len(a)-1]); ok {
-				v = b2i(k == 0)
+				v = b2i(z == k)
 			}
 		case strings.HasPrefix(a, "($0 <= ") && strings.HasSuffix(a, ")"):
 			if k, ok := num(a[7 : len(a)-1]); ok {
-				v = b2i(0 <= k)
+				v = b2i(z <= k)
 			}
 		case strings.HasPrefix(a, "($0 < ") && strings.HasSuffix(a, ")"):
 			if k, ok := num(a[6 : len(a)-1]); ok {
-				v = b2i(0 < k)
+				v = b2i(z < k)
 			}
 		case strings.HasSuffix(a, " <= $0)") && strings.HasPrefix(a, "("):
 			if k, ok := num(a[1 : len(a)-7]); ok {
-				v = b2i(k <= 0)
+				v = b2i(k <= z)
 			}
 		case strings.HasSuffix(a, " < $0)") && strings.HasPrefix(a, "("):
 			if k, ok := num(a[1 : len(a)-6]); ok {
-				v = b2i(k < 0)
+				v = b2i(k < z)
 			}
-		case a == "unicode.IsLetter($0)" || a == "unicode.IsDigit($0)" || a == "unicode.IsSpace($0)":
-			v = 0
+		case a == "unicode.IsLetter($0)":
+			v = b2i(unicode.IsLetter(at))
+		case a == "unicode.IsDigit($0)":
+			v = b2i(unicode.IsDigit(at))
+		case a == "unicode.IsSpace($0)":
+			v = b2i(unicode.IsSpace(at))
+		case strings.HasPrefix(a, `strings.ContainsRune("`) && strings.HasSuffix(a, `",$0)`):
+			if set, err := strconv.Unquote(a[len("strings.ContainsRune(") : len(a)-len(",$0)")]); err == nil {
+				v = b2i(strings.ContainsRune(set, at))
+			}
 		}
 		if v >= 0 && l[0] == '-' {
 			v = 1 - v
